@@ -405,6 +405,68 @@ func (pf *pfunc) proveAt(b *ssa.BasicBlock, g pgoal, extra []fact, depth int) bo
 	if g.l != nil && pf.goalInduction(b, g.l, carried, depth, trace) {
 		return true
 	}
+	if g.l != nil && pf.inGoalInd == 0 && pf.goalPlusCounter(b, g.l, carried, depth, trace) {
+		return true
+	}
+	return false
+}
+
+// goalPlusCounter: the goal is not inductive by itself but becomes so with another counter of the same
+// loop added or subtracted ("len(buf) + remaining == n"): for a loop header whose phis the goal mentions
+// and each other integer phi c of that header, prove goal±c as a loop invariant, then the goal at b from
+// it and the facts there (the exit test bounds c).
+func (pf *pfunc) goalPlusCounter(b *ssa.BasicBlock, g *lin, carried []fact, depth int, trace bool) bool {
+	heads := map[*ssa.BasicBlock]bool{}
+	mentioned := map[*ssa.Phi]bool{}
+	for _, a := range g.atoms {
+		x := a
+		if a.op == "len" && len(a.args) == 1 {
+			x = a.args[0]
+		}
+		if ph, ok := x.val.(*ssa.Phi); ok && x.op == "phi" {
+			heads[ph.Block()] = true
+			mentioned[ph] = true
+		}
+	}
+	var hs []*ssa.BasicBlock
+	for h := range heads {
+		if h == b || h.Dominates(b) {
+			hs = append(hs, h)
+		}
+	}
+	sort.Slice(hs, func(i, j int) bool { return hs[i].Index < hs[j].Index })
+	for _, h := range hs {
+		for _, ins := range h.Instrs {
+			ph, ok := ins.(*ssa.Phi)
+			if !ok {
+				break
+			}
+			if mentioned[ph] || !isIntType(ph.Type()) {
+				continue
+			}
+			cn := pf.get(ph)
+			if cn.op != "phi" {
+				continue
+			}
+			for _, s := range []int64{1, -1} {
+				g2 := g.clone().addScaled(linAtom(cn), big.NewRat(s, 1))
+				if trace {
+					fmt.Fprintf(os.Stderr, "%s   trying the invariant %s >= 0\n", strings.Repeat("  ", depth), descLin(g2))
+				}
+				if !pf.goalInduction(b, g2, carried, depth, trace) {
+					continue
+				}
+				fs := &factSet{}
+				for _, f := range carried {
+					fs.add(f)
+				}
+				fs.add(fact{l: g2, why: "loop invariant " + descLin(g2) + " >= 0 (proved by induction)"})
+				if pf.prove(g, fs) {
+					return true
+				}
+			}
+		}
+	}
 	return false
 }
 
@@ -1393,8 +1455,17 @@ func (pf *pfunc) implicitFacts(atoms map[string]*vn, fs *factSet) {
 			lo, hi, ok := intTypeRange(a.typ)
 			if ok {
 				pf.inQuot = true
-				fits := pf.prove(exact.sub(linConst(lo)), fs) && pf.prove(linConst(hi).sub(exact), fs)
+				fits := pf.prove(exact.sub(linConst(lo)), fs)
+				if a.tok == token.SUB && lo.Sign() == 0 {
+					// unsigned x - y with y >= 0 never exceeds x, which is of the type
+					fits = fits && pf.prove(y, fs)
+				} else {
+					fits = fits && pf.prove(linConst(hi).sub(exact), fs)
+				}
 				pf.inQuot = false
+				if os.Getenv("VERIF_DEBUG") == "wrap" {
+					fmt.Fprintf(os.Stderr, "wrap? %s exact=%s fits=%v\n", shortKey(k), descLin(exact), fits)
+				}
 				if fits {
 					fs.add(fact{l: la.sub(exact), why: "arithmetic does not wrap"})
 					fs.add(fact{l: exact.sub(la), why: "arithmetic does not wrap"})
@@ -1582,6 +1653,26 @@ func (pf *pfunc) prove(g *lin, fs *factSet) bool {
 		for _, f := range rel {
 			for k, a := range f.atoms {
 				atoms[k] = a
+			}
+		}
+		// a difference that may wrap is an atom of its own: a fact about it alone joins the goal only
+		// through "arithmetic does not wrap", so such atoms are looked at wherever they occur
+		if !pf.inQuot {
+			for _, f := range fs.facts {
+				if f.l == nil {
+					continue
+				}
+				for k, a := range f.l.atoms {
+					if a.op == "bin" && (a.tok == token.ADD || a.tok == token.SUB) && isIntType(a.typ) && !pf.noOverflow(a) {
+						atoms[k] = a
+						// and what its operands are made of (a conversion that keeps the value)
+						for _, x := range a.args {
+							for k2, a2 := range pf.linOf(x).atoms {
+								atoms[k2] = a2
+							}
+						}
+					}
+				}
 			}
 		}
 		before := len(fs.facts)
